@@ -269,8 +269,12 @@ func (c *c15Conc) rewatch(r *rand.Rand) bool {
 		return false
 	}
 	nw := w.etcd.watchesFrom(nb)
-	w.live[i] = nw[0]
 	w.nRewatch++
+	if len(nw) == 0 {
+		w.live = append(w.live[:i], w.live[i+1:]...)
+		return true
+	}
+	w.live[i] = nw[0]
 	c.startPumps(nw[:1], r)
 	return true
 }
